@@ -2,46 +2,63 @@
 # selftest/run.sh [ID ...]   -- must-fail corpus: every seeded property-breaking change under /verif/seeded/<ID>/
 # (each compiles and passes the repository's own tests) is applied to a scratch worktree of /repo's HEAD and the
 # property's registered check is run against that worktree; the check must exit 1 with a VIOLATION line.
-# Nothing is written to /repo, to /verif/evidence or to /verif/replay. Exit 0 iff every change is caught.
+# A seed whose meta.json says "at_head": "neutral" (neutralised by a later fix commit) must leave the check quiet.
+# Nothing is written to /repo, to /verif/evidence or to /verif/replay. Exit 0 iff every change is handled as expected.
+# The machinery (/verif) and the repository commit are snapshotted at start, so work on either while the corpus runs
+# cannot change a run half-way. SELFTEST_PAR=<n> runs n seeds at a time (default 2).
 set -u
-cd "$(dirname "$0")/.."
-V=$(pwd)
-ids=("$@")
-if [ ${#ids[@]} -eq 0 ]; then ids=($(ls seeded)); fi
-[ -x bin/govc ] || ./setup.sh >/dev/null
-missed=0
-# snapshot of the machinery, so that work on /verif while the corpus runs cannot change a run half-way
-snap=$(mktemp -d /var/tmp/verif-selftest-snap-XXXXXX)
-for f in props.json ledger known_findings.json tools bounded bin replays; do cp -r $V/$f $snap/$f; done
-trap 'rm -rf $snap' EXIT
-for id in "${ids[@]}"; do
-  patch=$V/seeded/$id/patch.diff
+V=${VERIF_HOME:-$(cd "$(dirname "$0")/.." && pwd)}
+cd $V
+export VERIF_HOME=$V
+
+run_one() {
+  local id=$1 snap=$2 head=$3
+  local patch=$V/seeded/$id/patch.diff
   [ -f $V/seeded/$id/patch.head.diff ] && patch=$V/seeded/$id/patch.head.diff   # same change rebased onto a later fix commit
-  prop=${id%%-*}   # seeded/C02-r2 is a second change for property C02
-  [ -f "$patch" ] || continue
+  local prop=${id%%-*}   # seeded/C02-r2 is a second change for property C02
+  [ -f "$patch" ] || return 0
+  local wt root out rc nv nr neutral
   wt=$(mktemp -d /var/tmp/verif-selftest-XXXXXX)
   root=$(mktemp -d /var/tmp/verif-selftest-root-XXXXXX)
   rmdir $wt
-  git -C /repo worktree add -q --detach $wt HEAD || { echo "ERROR $id: cannot create worktree"; missed=1; continue; }
+  git -C /repo worktree add -q --detach $wt $head || { echo "ERROR $id: cannot create worktree"; return 1; }
+  local res=0
   if ! git -C $wt apply "$patch"; then
-    echo "ERROR $id: patch does not apply to HEAD"; missed=1
+    echo "ERROR $id: patch does not apply to HEAD"; res=1
   else
     for f in props.json ledger known_findings.json tools bounded bin replays; do ln -s $snap/$f $root/$f; done
     mkdir -p $root/evidence $root/replay
     out=$(VERIF_ROOT=$root $snap/bin/govc check $prop -repo $wt 2>&1); rc=$?
     nv=$(echo "$out" | grep -c '^VIOLATION')
+    nr=$(echo "$out" | grep '^VIOLATION' | grep -vc 'no-failing-input-found$')
     neutral=$(python3 -c "import json;print(json.load(open('$V/seeded/$id/meta.json')).get('at_head',''))" 2>/dev/null)
     if [ "$neutral" = "neutral" ]; then
       # the change no longer breaks the property on HEAD (neutralised by a later fix commit): the check must stay quiet
       if [ $rc -eq 0 ] && [ $nv -eq 0 ]; then echo "NEUTRAL $id: property holds at HEAD with this change and the check stays quiet"
-      else echo "FALSE-ALARM $id (exit $rc): $(echo "$out" | grep '^VIOLATION' | head -3 | tr '\n' ' ')"; missed=1; fi
+      else echo "FALSE-ALARM $id (exit $rc): $(echo "$out" | grep '^VIOLATION' | head -3 | tr '\n' ' ')"; res=1; fi
     elif [ $rc -eq 1 ] && [ $nv -gt 0 ]; then
-      echo "CAUGHT $id: $(echo "$out" | grep '^VIOLATION' | sed 's|.*replay=[^ ]*/||; s|\.json.*||; s|\.txt.*||' | sort -u | tr '\n' ' ')"
+      echo "CAUGHT $id [replayed=$nr]: $(echo "$out" | grep '^VIOLATION' | sed 's|.*replay=[^ ]*/||; s|\.json.*||; s|\.txt.*||' | sort -u | tr '\n' ' ')"
     else
-      echo "MISSED $id (exit $rc): $(echo "$out" | tail -2 | tr '\n' ' ')"; missed=1
+      echo "MISSED $id (exit $rc): $(echo "$out" | tail -2 | tr '\n' ' ')"; res=1
     fi
   fi
   git -C /repo worktree remove --force $wt 2>/dev/null; rm -rf $wt $root
-done
+  return $res
+}
+
+if [ "${1:-}" = "--one" ]; then
+  run_one "$2" "$3" "$4"; exit $?
+fi
+
+ids=("$@")
+if [ ${#ids[@]} -eq 0 ]; then ids=($(ls seeded)); fi
+[ -x bin/govc ] || ./setup.sh >/dev/null
+snap=$(mktemp -d /var/tmp/verif-selftest-snap-XXXXXX)
+for f in props.json ledger known_findings.json tools bounded bin replays; do cp -r $V/$f $snap/$f; done
+cp $V/selftest/run.sh $snap/run.sh
+head=$(git -C /repo rev-parse HEAD)
+trap 'rm -rf $snap' EXIT
+printf '%s\n' "${ids[@]}" | xargs -P ${SELFTEST_PAR:-2} -I{} bash $snap/run.sh --one {} $snap $head
+rc=$?
 git -C /repo worktree prune
-exit $missed
+[ $rc -eq 0 ]
